@@ -104,6 +104,9 @@ func Open(dir string, config Config) (*DB, error) {
 func (db *DB) Close() {
 	defer atomic.StoreUint32(&db.state, uint32(StateClosed))
 	db.closeC <- struct{}{}
+	// queued memtables hold older data than the active one, they must reach the disk first,
+	// otherwise a crash leaves their (older) wal files next to a sstable with newer versions
+	<-db.closed
 
 	mt := db.memtable
 	mt.freeze()
@@ -114,8 +117,6 @@ func (db *DB) Close() {
 			db.logger.Warnf("failed to delete immutable wal file: %v", err)
 		}
 	}
-
-	<-db.closed
 }
 
 func (db *DB) View(fn TxnFunc) error {
